@@ -4,10 +4,14 @@ import (
 	"bytes"
 	"crypto"
 	stdrsa "crypto/rsa"
+	"crypto/sha256"
 	"encoding/hex"
 	"encoding/json"
 	"fmt"
 	"math/big"
+	"reflect"
+	"runtime"
+	"sync"
 	"time"
 
 	zasn1 "github.com/zmap/zcrypto/encoding/asn1"
@@ -26,7 +30,9 @@ func init() {
 			"(b) real and zcrypto-created certificates with 1-4 stacked structure-aware mutations; each one accepted by ParseCertificate (strict, else permissive) gets: json.Marshal x2 (bytes compared), " +
 			"JsonifyExtensions, CollectAllNames, VerifyHostname x6, GetParsedDNSNames, CertPool.AddCert/Contains, Graph.AddCert/AddRoot, and CheckSignatureFrom + CheckSignature against every certificate " +
 			"of its batch of 16 as parent and as child; plus batches of PSS-labelled children under 512/768/1024-bit RSA parents too small for the declared hash, with signature values " +
-			"crafted to pass the cheap EMSA-PSS checks; non-trivial = accepted with >= 1 extension; distinct by hash of the DER bytes",
+			"crafted to pass the cheap EMSA-PSS checks; hold leg: every MarshalJSON result (certificate, names, algorithms, the marshalers inside JsonifyExtensions) of 2-6 certificates is " +
+			"kept as returned, must be unchanged after the others were serialised and equal a fresh call; concurrent leg: 6 goroutines json.Marshal their own certificates, each result valid and " +
+			"equal to the sequential encoding; non-trivial = accepted with >= 1 extension; distinct by hash of the DER bytes",
 		MinNontrivial:         7500,
 		MinNontrivialThorough: 250000,
 		Shards:                16,
@@ -209,6 +215,8 @@ func c02Batch(c *core.Ctx, batch []c02Cert, id string) {
 		c.Violation(panicKey(pi), fmt.Sprintf("Graph.AddCert / AddRoot over a batch\npanic: %s\n%s", pi.Value, pi.Stack), id+"-graph", in)
 	}
 	c.Count("op:Graph(batch)", 1)
+	c02Hold(c, batch, id, raws)
+	c02Concurrent(c, batch, id, raws)
 	// outside the statement: Verify with the batch as intermediates and roots (counted only)
 	if pi := core.Guard(func() {
 		inter, roots := zx509.NewCertPool(), zx509.NewCertPool()
@@ -403,4 +411,221 @@ func (g *gen) smallRSAPSSBatch() []rawCert {
 		}
 	}
 	return out
+}
+
+// marshalersOf lists the json.Marshaler values a certificate's JSON view is made of: the certificate itself,
+// its names and algorithm identifiers, and every Marshaler inside the JsonifyExtensions output.
+func marshalersOf(cert *zx509.Certificate) (names []string, ms []json.Marshaler) {
+	add := func(name string, v any) {
+		if m, ok := v.(json.Marshaler); ok && m != nil {
+			rv := reflect.ValueOf(v)
+			if rv.Kind() == reflect.Ptr && rv.IsNil() {
+				return
+			}
+			names, ms = append(names, name), append(ms, m)
+		}
+	}
+	add("Certificate", cert)
+	add("Certificate.Subject", &cert.Subject)
+	add("Certificate.Issuer", &cert.Issuer)
+	add("Certificate.SignatureAlgorithm", &cert.SignatureAlgorithm)
+	add("Certificate.PublicKeyAlgorithm", &cert.PublicKeyAlgorithm)
+	add("Certificate.KeyUsage", &cert.KeyUsage)
+	add("Certificate.FingerprintSHA256", &cert.FingerprintSHA256)
+	var ext *zx509.CertificateExtensions
+	if core.Guard(func() { ext, _ = cert.JsonifyExtensions() }) != nil || ext == nil {
+		return
+	}
+	var walk func(path string, v reflect.Value, depth int)
+	walk = func(path string, v reflect.Value, depth int) {
+		if depth > 3 || len(ms) > 48 || !v.IsValid() {
+			return
+		}
+		switch v.Kind() {
+		case reflect.Ptr, reflect.Interface:
+			if v.IsNil() {
+				return
+			}
+			if v.Kind() == reflect.Ptr && v.CanInterface() {
+				add(path, v.Interface())
+			}
+			walk(path, v.Elem(), depth+1)
+		case reflect.Struct:
+			if v.CanAddr() && v.Addr().CanInterface() {
+				add(path, v.Addr().Interface())
+			}
+			for i := 0; i < v.NumField(); i++ {
+				if f := v.Type().Field(i); f.PkgPath == "" {
+					walk(path+"."+f.Name, v.Field(i), depth+1)
+				}
+			}
+		case reflect.Slice:
+			if v.Type().Elem().Kind() == reflect.Uint8 {
+				if v.CanAddr() && v.Addr().CanInterface() {
+					add(path, v.Addr().Interface())
+				}
+				return
+			}
+			for i := 0; i < v.Len() && i < 3; i++ {
+				walk(path+"[]", v.Index(i), depth+1)
+			}
+		default:
+			if v.CanAddr() && v.Addr().CanInterface() {
+				add(path, v.Addr().Interface())
+			}
+		}
+	}
+	walk("CertificateExtensions", reflect.ValueOf(ext), 0)
+	return
+}
+
+type heldJSON struct {
+	cert  int
+	name  string
+	m     json.Marshaler
+	out   []byte // the slice exactly as MarshalJSON returned it (never copied)
+	err   error
+	sum   [32]byte
+	first []byte // private copy taken at once
+}
+
+// c02Hold checks the determinism clause across interleaved serialisations: every MarshalJSON result of 2..6
+// certificates is kept as returned, then — after all the others have been serialised — must be unchanged and
+// equal to a fresh serialisation of the same value ("serialise A, serialise B, serialise A again").
+func c02Hold(c *core.Ctx, batch []c02Cert, id string, raws []string) {
+	k := 2 + int(c.Rng.IntN(5))
+	if k > len(batch) {
+		k = len(batch)
+	}
+	if k < 2 {
+		return
+	}
+	perm := c.Rng.Perm(len(batch))[:k]
+	anyPerm := false
+	for _, i := range perm {
+		anyPerm = anyPerm || batch[i].mode
+	}
+	zasn1.AllowPermissiveParsing = anyPerm
+	var sub []string
+	for _, i := range perm {
+		sub = append(sub, raws[i])
+	}
+	in := c02Input{Mode: modeName(anyPerm), Batch: sub, Desc: "hold leg"}
+	var held []*heldJSON
+	refs := map[int][]byte{}
+	for _, i := range perm {
+		cert := batch[i].c
+		var ref []byte
+		if core.Guard(func() { ref, _ = json.Marshal(cert) }) != nil {
+			return // a panic here is reported by the single-certificate operations
+		}
+		refs[i] = ref
+		names, ms := marshalersOf(cert)
+		for j, m := range ms {
+			h := &heldJSON{cert: i, name: names[j], m: m}
+			if core.Guard(func() { h.out, h.err = m.MarshalJSON() }) != nil {
+				continue
+			}
+			h.sum = sha256.Sum256(h.out)
+			h.first = append([]byte(nil), h.out...)
+			held = append(held, h)
+		}
+	}
+	c.Count("op:MarshalJSON(held)", len(held))
+	for _, h := range held {
+		if sha256.Sum256(h.out) != h.sum {
+			d := firstDiff(h.first, h.out)
+			c.Violation("json-result-changed-after-other-serialisations:"+h.name,
+				fmt.Sprintf("the slice returned by %s.MarshalJSON() of certificate #%d changed after other values were serialised (first difference at byte %d):\nwas …%s\nnow …%s",
+					h.name, h.cert, d, ctxAt(h.first, d), ctxAt(h.out, d)), id+"-hold", in)
+			continue
+		}
+		var again []byte
+		var err error
+		if core.Guard(func() { again, err = h.m.MarshalJSON() }) != nil {
+			continue
+		}
+		if (err == nil) != (h.err == nil) || !bytes.Equal(again, h.first) {
+			d := firstDiff(h.first, again)
+			c.Violation("json-nondeterministic:"+h.name, fmt.Sprintf("%s.MarshalJSON() before and after serialising other certificates differ at byte %d (err %v / %v):\n…%s\n…%s",
+				h.name, d, h.err, err, ctxAt(h.first, d), ctxAt(again, d)), id+"-hold", in)
+		}
+	}
+	for _, i := range perm { // A, B, …, A again through json.Marshal
+		var again []byte
+		var err error
+		cert := batch[i].c
+		if core.Guard(func() { again, err = json.Marshal(cert) }) != nil {
+			continue
+		}
+		if err != nil && refs[i] != nil || !bytes.Equal(again, refs[i]) {
+			d := firstDiff(refs[i], again)
+			c.Violation("json-nondeterministic:Certificate", fmt.Sprintf("json.Marshal of certificate #%d before and after serialising other certificates differ at byte %d:\n…%s\n…%s",
+				i, d, ctxAt(refs[i], d), ctxAt(again, d)), id+"-hold", in)
+		}
+	}
+}
+
+// c02Concurrent: six goroutines serialise their own certificates repeatedly; every call must succeed when the
+// reference call did, return valid JSON and equal that certificate's reference encoding.
+func c02Concurrent(c *core.Ctx, batch []c02Cert, id string, raws []string) {
+	if len(batch) < 6 {
+		return
+	}
+	anyPerm := false
+	for _, x := range batch {
+		anyPerm = anyPerm || x.mode
+	}
+	zasn1.AllowPermissiveParsing = anyPerm
+	refs := make([][]byte, len(batch))
+	okRef := make([]bool, len(batch))
+	for i, x := range batch {
+		var err error
+		if core.Guard(func() { refs[i], err = json.Marshal(x.c) }) == nil && err == nil {
+			okRef[i] = true
+		}
+	}
+	type bad struct {
+		cert      int
+		key, text string
+	}
+	const G = 6
+	results := make([][]bad, G)
+	var wg sync.WaitGroup
+	for g := 0; g < G; g++ {
+		wg.Add(1)
+		go func(g int) {
+			defer wg.Done()
+			for round := 0; round < 4; round++ {
+				for i := g; i < len(batch); i += G {
+					if !okRef[i] {
+						continue
+					}
+					var out []byte
+					var err error
+					if pi := core.Guard(func() { out, err = json.Marshal(batch[i].c) }); pi != nil {
+						results[g] = append(results[g], bad{i, panicKey(pi), "json.Marshal panicked under concurrent use: " + pi.Value + "\n" + pi.Stack})
+						continue
+					}
+					switch {
+					case err != nil:
+						results[g] = append(results[g], bad{i, "json-concurrent:error", "json.Marshal failed under concurrent use: " + err.Error()})
+					case !json.Valid(out):
+						results[g] = append(results[g], bad{i, "json-concurrent:invalid-json", "json.Marshal returned invalid JSON under concurrent use"})
+					case !bytes.Equal(out, refs[i]):
+						d := firstDiff(refs[i], out)
+						results[g] = append(results[g], bad{i, "json-concurrent:differs-from-reference", fmt.Sprintf("differs from the sequential encoding at byte %d:\n…%s\n…%s", d, ctxAt(refs[i], d), ctxAt(out, d))})
+					}
+					runtime.Gosched()
+				}
+			}
+		}(g)
+	}
+	wg.Wait()
+	c.Count("op:json.Marshal(concurrent)", 1)
+	for _, rs := range results {
+		for _, b := range rs {
+			c.Violation(b.key, b.text, id+"-concurrent", c02Input{Mode: modeName(anyPerm), Hex: raws[b.cert], Batch: raws, Desc: "concurrent leg, 6 goroutines"})
+		}
+	}
 }
